@@ -283,4 +283,5 @@ def run(ctx):
         "R3.double-remove-guard": "same",
         "R4.pool-length": "quiescent len() is this counter",
         "R7.removal-authority": "a second remover destroys an object while other handles exist",
+        "R14.free-list-head": "a corrupted free list places a new object over a live one (or outside the slab) in the thread-safe pools too",
     })
